@@ -192,6 +192,8 @@ type VerifDbDump struct {
 	Layout       VerifDictLayout
 	Keys         []VerifKeyDump
 	Waiters      map[string]int // key -> queue length in the wait table
+	WaitQueues   map[string][]int64 // key -> ids of the waiting clients, in queue order
+	Tokens       []int64            // clients whose wake-up channel holds an unread token
 }
 
 // VerifDump returns the internal state of database index (taking its lock).
@@ -217,6 +219,23 @@ func (eng *RedisEmu) VerifDump(index int) (out VerifDbDump) {
 		}
 		out.Waiters[name] = n
 	}
+	out.WaitQueues = map[string][]int64{}
+	for name, owl := range ds.waitingClients.table {
+		for ref := owl.queueHead; ref != nil; ref = ref.queueNext {
+			owner := int64(-1)
+			if o, ok := verifSignals.Load(ref.signal.id); ok {
+				owner = o.(verifSignalOwner).client
+			}
+			out.WaitQueues[name] = append(out.WaitQueues[name], owner)
+		}
+	}
+	verifSignals.Range(func(k, v any) bool {
+		o := v.(verifSignalOwner)
+		if len(o.ws.ready) > 0 {
+			out.Tokens = append(out.Tokens, o.client)
+		}
+		return true
+	})
 	for _, item := range ds.data.buckets {
 		if item == nil {
 			continue
